@@ -38,9 +38,11 @@ STATEMENTS = [
     'deep = len => 0 if len < 1 else deep(len - 1) + 1', 'swallow(deep, 200); len', 'swallow_all(deep, 260); len("ab")', 'deep(160); y = 1', 'swallow_all(deep, 900); len',
     # a call site evaluated before and after the name it calls is shadowed / a lambda without parameters that assigns
     'gl = v => len("abc"); gl(0)', 'len = v => 42; gl(0)', 'gl(0)', 'map([1, 2], v => len("ab") + v)', 'b0()', 'b8(1)', 'map([1], v => b0() + v)', 'b0() + len("ab")',
+    'body = u => hh(u); w = hh => body(1); w(x => x + 41); body(1)', 'body = u => hh(u); w = hh => body(1); w(x => x + 41) + w(x => x + 1)',
+    'cs = v => len(v); w3 = len => cs("ab"); [w3(x => 7), cs("abc")]',
     'f(None)', 'len = None', 'h(None)', 'map([None, 3], f)', 'f(0)', 'f(False)', 'f("")', 'len = 0', 'g = None', 'b3(None)',
 ]
-DEEP = ['gl = v => len("abc"); gl(0)', 'len = v => 42; gl(0)', 'b0()', 'b8(1)', 'swallow(deep, 200); len', 'swallow_all(deep, 260); len("ab")', 'swallow_all(deep, 900); len', 'w2(4)', 'add(5)', 'fib(5)', 'len', 'len("ab")', 'len = 5', 'len += 1', 'f(1)', 'g(0)', 'h(3)', 'b1(0)', 'b2(0)', 'b3(5)', 'swallow(r, 1); len',
+DEEP = ['cs = v => len(v); w3 = len => cs("ab"); [w3(x => 7), cs("abc")]', 'gl = v => len("abc"); gl(0)', 'len = v => 42; gl(0)', 'b0()', 'b8(1)', 'swallow(deep, 200); len', 'swallow_all(deep, 260); len("ab")', 'swallow_all(deep, 900); len', 'w2(4)', 'add(5)', 'fib(5)', 'len', 'len("ab")', 'len = 5', 'len += 1', 'f(1)', 'g(0)', 'h(3)', 'b1(0)', 'b2(0)', 'b3(5)', 'swallow(r, 1); len',
         'swallow_all(r2, 1); len("abc")', 'map([1], g)', 'y']
 
 AST_BODIES = {
